@@ -29,6 +29,11 @@ func c15Scenarios(cfg runCfg) []Scenario {
 			out = append(out, Scenario{Family: "round", Seed: mix(cfg.seed, 15, uint64(i)), N: 8 + int(mix(cfg.seed, 1515, uint64(i))%9)})
 		}
 	}
+	for i := 0; i < cfg.n(48, 25); i++ {
+		if cfg.mine(i) {
+			out = append(out, Scenario{Family: "failing-together", Seed: mix(cfg.seed, 15, 78, uint64(i)), N: 4 + int(mix(cfg.seed, 1517, uint64(i))%8)})
+		}
+	}
 	for i := 0; i < cfg.n(64, 25); i++ {
 		if cfg.mine(i) {
 			out = append(out, Scenario{Family: "fuzz-target", Seed: mix(cfg.seed, 15, 77, uint64(i)), N: 6 + int(mix(cfg.seed, 1516, uint64(i))%10)})
@@ -237,7 +242,79 @@ func c15FuzzTarget(t *testing.T, sc Scenario, res *Result) {
 	}
 }
 
+// c15FailingTogether: G checks that FAIL (each for a threshold of its own) run at once over one shared generator, all
+// on test objects with the same name (parallel checks of one test function); every check - search, reproduction,
+// every minimisation attempt, final replay - draws exactly what it draws when it runs alone.
+func c15FailingTogether(t *testing.T, sc Scenario, res *Result) {
+	r := newRng(sc.Seed, 0xfa11)
+	G := sc.N
+	shared := rapid.SliceOfN(rapid.IntRange(0, 1<<20), 2, 4)
+	other := rapid.Custom(func(t *rapid.T) int { return rapid.IntRange(0, 50).Draw(t, "o") * 2 })
+	thr := make([]int, G)
+	for g := range thr {
+		thr[g] = r.between(1, 1<<19)
+	}
+	setFlags(map[string]string{"rapid.seed": fmt.Sprint(sc.Seed%100003 + 1), "rapid.checks": "300", "rapid.nofailfile": "true", "rapid.shrinktime": "60s"})
+	prop := func(g int, log *[]string) func(t *rapid.T) {
+		return func(t *rapid.T) {
+			v := shared.Draw(t, "v")
+			o := other.Draw(t, "o")
+			*log = append(*log, fmt.Sprint(v, o))
+			if v[0]+v[1] >= thr[g] {
+				t.Fatalf("sum reaches the threshold %d", thr[g])
+			}
+		}
+	}
+	logs := make([][]string, G)
+	tbs := make([]*recTB, G)
+	var wg sync.WaitGroup
+	start := make(chan struct{})
+	for g := 0; g < G; g++ {
+		tbs[g] = newTB("C15_same_name")
+		wg.Add(1)
+		go func(g int) {
+			defer wg.Done()
+			<-start
+			rapid.Check(tbs[g], prop(g, &logs[g]))
+		}(g)
+	}
+	close(start)
+	wg.Wait()
+	res.inc("rounds")
+	res.inc("failing_together_rounds")
+	res.count("concurrent_checks", int64(G))
+	res.nontrivial(fmt.Sprintf("failing-together/%x", sc.Seed))
+	for g := 0; g < G; g++ {
+		var solo []string
+		tb := newTB("C15_same_name")
+		runCheck(tb, prop(g, &solo))
+		res.count("draws_compared", int64(len(solo)))
+		a, b := parseReport(tbs[g]), parseReport(tb)
+		if a.Kind != b.Kind || a.M != b.M || a.N != b.N {
+			res.violate(sc, "c15/failing-together-report", fmt.Sprintf("check %d of %d failing checks run at once reports %q, alone it reports %q", g, G, clip(a.Raw, 120), clip(b.Raw, 120)), nil)
+			continue
+		}
+		if strings.Join(logs[g], "|") != strings.Join(solo, "|") {
+			d := 0
+			for d < len(logs[g]) && d < len(solo) && logs[g][d] == solo[d] {
+				d++
+			}
+			last := func(l []string) string {
+				if len(l) == 0 {
+					return ""
+				}
+				return l[len(l)-1]
+			}
+			res.violate(sc, "c15/failing-together-draws", fmt.Sprintf("check %d of %d failing checks run at once (threshold %d) executed other test cases than the same check alone: %d vs %d invocations, first difference at #%d; final test case %s vs %s", g, G, thr[g], len(logs[g]), len(solo), d, last(logs[g]), last(solo)), nil)
+		}
+	}
+}
+
 func c15Run(t *testing.T, sc Scenario, res *Result) {
+	if sc.Family == "failing-together" {
+		c15FailingTogether(t, sc, res)
+		return
+	}
 	if sc.Family == "fuzz-target" {
 		c15FuzzTarget(t, sc, res)
 		return
